@@ -18,8 +18,9 @@
      sidx    the non-unique index on c1: key = value ++ row id (INSERT, UPDATE, DELETE) or the bare
              value (undo), read back by taking the last 8 bytes of the key as the row id;
    (state of /repo after the fix commits of 2026-09-22 15:22: DML skips tombstones, UPDATE / DELETE
-   maintain index entries the way INSERT writes them, index scans skip deleted rows and re-check the
-   WHERE clause; src/database/transaction.rs -- the undo side -- is unchanged)
+   maintain index entries the way INSERT writes them; index scans still return what they fetch
+   without looking at DELETE_BIT or re-checking the WHERE clause; src/database/transaction.rs --
+   the undo side -- is unchanged; /repo HEAD 8d427ad)
      nextid  next_row_id.
    A transaction (per handle): the write entries (oldest first) and the savepoint markers. *)
 From Coq Require Import ZArith List Bool.
@@ -312,10 +313,10 @@ Fixpoint run (sch : schema) (ops : list op) (s : tstate * option txn) : tstate *
 (* SELECT star: the scan skips DELETE_BIT and nothing else *)
 Definition scan (st : tstate) : list trow := map e_row (filter live (ents st)).
 Definition count_star (st : tstate) : Z := rcount st.
-(* SecondaryIndexScan fetches table_reader.get(row key), skips tombstones and evaluates the whole
-   WHERE clause on what it fetched *)
+(* SecondaryIndexScan materialises table_reader.get(row key) without looking at the record header
+   and without re-checking the WHERE clause on what it fetched *)
 Definition get_row (id : Z) (st : tstate) : list trow :=
-  match find_ent id (ents st) with Some e => if live e then [e_row e] else [] | None => [] end.
+  match find_ent id (ents st) with Some e => [e_row e] | None => [] end.
 (* the planner turns `col = literal` into an index scan only for a plain literal: a negative number
    is a unary minus applied to a literal and stays a Filter over the table scan *)
 Definition indexable (v : value) : bool :=
@@ -323,8 +324,7 @@ Definition indexable (v : value) : bool :=
 (* SELECT star WHERE c0 = v *)
 Definition lookup0 (sch : schema) (st : tstate) (v : value) : list trow :=
   if keyed sch && indexable v then
-    filter (fun r => value_eqb (c0 r) v)
-           (flat_map (fun p => if value_eqb (fst p) v then get_row (snd p) st else []) (kidx st))
+    flat_map (fun p => if value_eqb (fst p) v then get_row (snd p) st else []) (kidx st)
   else filter (fun r => value_eqb (c0 r) v) (scan st).
 (* the last 8 bytes of a bare integer key: the payload of encode_int (the 1-byte key of 0 is skipped) *)
 Definition bare_rid (v : value) : option Z :=
@@ -333,8 +333,7 @@ Definition sent_rid (e : sent) : option Z := match s_suf e with Some id => Some 
 (* SELECT star WHERE c1 = v *)
 Definition lookup1 (sch : schema) (st : tstate) (v : value) : list trow :=
   if s_sec sch && indexable v then
-    filter (fun r => value_eqb (c1 r) v)
-           (flat_map (fun e => if value_eqb (s_key e) v then match sent_rid e with Some id => get_row id st | None => [] end else []) (sidx st))
+    flat_map (fun e => if value_eqb (s_key e) v then match sent_rid e with Some id => get_row id st | None => [] end else []) (sidx st)
   else filter (fun r => value_eqb (c1 r) v) (scan st).
 (* would INSERT of the single row r be accepted? *)
 Definition ins_ok (sch : schema) (st : tstate) (r : trow) : bool := nn_ok sch r && uniq_ok sch st r.
